@@ -355,6 +355,9 @@ def mask_password(message, secret="***"):  # nosec
         # byte string. A better solution will be provided in Kilo.
         pass
 
+    # The mask is literal text, not a replacement template: keep any
+    # backslash in it from being read as an escape or a group reference.
+    secret = secret.replace('\\', r'\\')
     substitute1 = r'\g<1>' + secret
     substitute2 = r'\g<1>' + secret + r'\g<2>'
     substitute_wildcard = r'\g<1>'
